@@ -503,9 +503,12 @@ fn main() {
 	menu.push((Regime::Negative, 300));
 	menu.push((Regime::Swing, 4096));
 	menu.push((Regime::Calm, 64));
+	// thorough: histories of 10^7 steps for the lengths 2 and 14 only (a second system per subject); every
+	// length with the 10^6-step menu
+	let mut menu_vl = menu.clone();
 	if thorough {
-		menu.push((Regime::Volatile, 10_000_000));
-		menu.push((Regime::Jump, 1_000_000));
+		menu_vl.push((Regime::Volatile, 10_000_000));
+		menu_vl.push((Regime::Jump, 1_000_000));
 	}
 	let total_cap: u64 = if thorough { 12_000_000 } else { 70_000 };
 	for sp in registry() {
@@ -534,13 +537,19 @@ fn main() {
 		if sp.par == ParKind::Ma {
 			// MA::init dispatch: one system per kind so that findings are attributed to the kind
 			for k in MA_KINDS {
-				let sys = LongSys { name: format!("MAInstance[{k}]/long-history"), spec_name: name, params: vec![Params::Ma(ma_of(k, 5))], menu: menu.clone(), max_macros: 2, micro: micro.clone(), micro_depth: 1, total_cap };
+				let sys = LongSys { name: format!("MAInstance[{k}]/long-history"), spec_name: name, params: vec![Params::Ma(ma_of(k, 5))], menu: menu_vl.clone(), max_macros: 2, micro: micro.clone(), micro_depth: 1, total_cap };
 				h.go(&sys, &Limits::depth(6).wall_secs(if thorough { 3600 } else { 120 }), true);
 			}
 			continue;
 		}
-		let sys = LongSys { name: format!("{name}/long-history"), spec_name: name, params, menu: menu.clone(), max_macros: if thorough { 2 } else { 2 }, micro, micro_depth: 2, total_cap };
+		let sys = LongSys { name: format!("{name}/long-history"), spec_name: name, params: params.clone(), menu: menu.clone(), max_macros: 2, micro: micro.clone(), micro_depth: 2, total_cap };
 		h.go(&sys, &Limits::depth(6).wall_secs(if thorough { 3600 } else { 120 }), true);
+		if thorough {
+			let few: Vec<Params> = params.iter().filter(|p| checks::grid::span(p) <= 14).cloned().collect();
+			let only_vl: Vec<(Regime, u64)> = menu_vl.iter().filter(|(_, l)| *l >= 1_000_000 || *l == 300 || *l == 256).cloned().collect();
+			let sys = LongSys { name: format!("{name}/long-history/1e7"), spec_name: name, params: few, menu: only_vl, max_macros: 2, micro, micro_depth: 1, total_cap };
+			h.go(&sys, &Limits::depth(6).wall_secs(3600), true);
+		}
 	}
 	// indicators with a reference model
 	let ks = alpha::k_candles();
@@ -552,7 +561,7 @@ fn main() {
 			}
 		}
 		let cfgs = checks::indcheck::indicator_configs(Some(name), false);
-		let sys = ILongSys { name: format!("{name}/long-history-vs-fresh"), cfgs, menu: menu.clone(), max_macros: 2, micro: ks[..3].to_vec(), micro_depth: 2, total_cap };
+		let sys = ILongSys { name: format!("{name}/long-history-vs-fresh"), cfgs, menu: menu_vl.clone(), max_macros: 2, micro: ks[..3].to_vec(), micro_depth: 2, total_cap };
 		h.go(&sys, &Limits::depth(5).wall_secs(if thorough { 3600 } else { 120 }), true);
 	}
 	h.run.note("longest_history", serde_json::json!(total_cap));
